@@ -1,7 +1,7 @@
 (* Props/C20.v — generators and aggregating constructors build what they advertise.
    Only statements, `exact`, Print Assumptions, and concrete Examples (non-vacuity). *)
-From Coq Require Import List Arith ZArith Bool QArith Qcanon.
-From PV Require Import Base.Index Base.Sum Np.Array Model.Sparse Model.Repr Model.Harness Model.C20Gen Model.C20Harness Proofs.C20Proofs.
+From Coq Require Import List Arith ZArith Bool QArith Qcanon Sorting.Sorted.
+From PV Require Import Base.Index Base.Sum Np.Array Model.Sparse Model.Repr Model.Harness Model.C20Gen Model.C20Harness Proofs.C20Proofs Proofs.C20Teneye.
 Import ListNotations.
 Local Open Scope nat_scope.
 
@@ -141,6 +141,17 @@ Print Assumptions C20_sprand_post.
 Print Assumptions C20_sprand_count.
 Print Assumptions C20_seeded_first_draw.
 
+(* ---------------------------------------------------------------- stored order *)
+(* the stored subscripts of from_aggregator's result and of the random sparse generators ascend STRICTLY in
+   lexicographic order (first mode most significant) — whatever the input order / the draws: the stored order is a
+   function of the set of subscripts, which is what makes seeded runs reproduce the same raw object *)
+Theorem C20_stored_order :
+  (forall (V : Type) (isz : V -> bool) s subs (vals : list V) f,
+     StronglySorted idx_lt (ssubs (from_aggregator isz s subs vals f))) /\
+  (forall nz s draws, StronglySorted idx_lt (sprand_subs nz s draws)).
+Proof. exact (conj (@agg_sorted) sprand_sorted). Qed.
+Print Assumptions C20_stored_order.
+
 (* ---------------------------------------------------------------- what the code does not guarantee (known findings) *)
 (* "the requested number of distinct nonzeros" for EVERY admissible stream of draws is FALSE for the algorithm as
    coded (finding A-46): ten draws that each repeat a row end one short. The exact guarantee is C20_sprand_count. *)
@@ -183,6 +194,12 @@ Definition C20_teneye_identity_stmt : Prop :=
   forall (m n : nat) (x : list Qc), Nat.even m = true -> 2 <= m -> length x = n ->
   forall a, a < n ->
   ttsv1 (tabulate (repeat n m) (teneye_entry m)) m n x a = (qpow (qdot x) (m / 2 - 1) * nth a x q0)%Qc.
+
+(* ... proved for order 2 (partial): ttsv(I, x) = x for EVERY vector x of any length *)
+Theorem C20_teneye_identity_order2_partial : forall (n : nat) (x : list Qc) (a : nat), length x = n -> a < n ->
+  ttsv1 (tabulate (repeat n 2) (teneye_entry 2)) 2 n x a = (qpow (qdot x) (2 / 2 - 1) * nth a x q0)%Qc.
+Proof. exact teneye_identity_order2. Qed.
+Print Assumptions C20_teneye_identity_order2_partial.
 
 (* ---------------------------------------------------------------- non-vacuity: concrete, non-symmetric instances *)
 Example C20_example_from_function :
